@@ -119,6 +119,26 @@ struct MIdle {
     taken: bool,
 }
 
+/// One scheduled future of an executor source.
+#[derive(Clone, Debug)]
+struct MTask {
+    src: SrcId,
+    /// schedule() returned Ok
+    accepted: bool,
+    remaining: u8,
+    self_wake: bool,
+    val: u8,
+    /// scheduled / woken and not polled since
+    runnable: bool,
+    /// runnable at the start of the current dispatch: must be polled by it
+    owed: bool,
+    polls: u32,
+    finished: bool,
+    delivered: u32,
+    drops: u32,
+    in_poll: bool,
+}
+
 #[derive(Clone, Debug, PartialEq)]
 enum RegKind {
     Reg,
@@ -145,6 +165,10 @@ struct PostWin {
 /// Flags and counters the property modules turn into evidence classes / the non-trivial rule.
 #[derive(Default, Debug, Clone)]
 pub struct Facts {
+    pub tasks_scheduled: u32,
+    pub tasks_scheduled_in_cb: u32,
+    pub task_wakes: u32,
+    pub task_polls: u32,
     pub adapters_given: u32,
     pub wakeups: u32,
     pub adapter_waits_armed: u32,
@@ -218,6 +242,7 @@ pub struct Monitor {
     /// upper bound on timer-wheel entries left behind by composites whose insertion failed half-way
     ghost_timers: usize,
     disp_reg_failed: bool,
+    tasks: Vec<MTask>,
     asyncs: Vec<MAsync>,
     pending_adapt: Option<(Option<usize>, bool)>,
     pending_release: Option<(usize, bool)>,
@@ -288,6 +313,7 @@ impl Monitor {
         Monitor {
             ghost_timers: 0,
             disp_reg_failed: false,
+            tasks: vec![],
             asyncs: vec![],
             pending_adapt: None,
             pending_release: None,
@@ -946,7 +972,39 @@ impl Monitor {
                 self.facts.recycles += 1;
                 None
             }
-            ROp::Schedule { .. } | ROp::Wake { .. } | ROp::DropScheduler { .. } => None,
+            ROp::Schedule { src, task, pendings, self_wake, val } => {
+                if !evs.is_empty() {
+                    return viol("C07.interference", &["C07", "C10"], format!("schedule() called {:?} on source #{}", evs[0].kind, evs[0].src));
+                }
+                debug_assert_eq!(task, self.tasks.len());
+                let exec_gone = self.srcs[src].src_drops > 0;
+                let ok = res.is_ok();
+                self.tasks.push(MTask { src, accepted: ok, remaining: pendings, self_wake, val, runnable: ok, owed: false, polls: 0, finished: false, delivered: 0, drops: 0, in_poll: false });
+                self.facts.tasks_scheduled += 1;
+                if in_cb {
+                    self.facts.tasks_scheduled_in_cb += 1;
+                }
+                if exec_gone && ok {
+                    return viol("C10.drop", &["C10", "C06"], format!("schedule() on the dropped executor #{src} returned Ok, expected ExecutorDestroyed"));
+                }
+                if !exec_gone && !ok {
+                    return viol("C10.first_poll", &["C10"], format!("schedule() on the live executor #{src} failed: {res:?}"));
+                }
+                if self.in_disp {
+                    self.srcs[src].touched = true;
+                }
+                None
+            }
+            ROp::Wake { task } => {
+                if let Some(t) = self.tasks.get_mut(task) {
+                    if t.accepted && !t.finished && t.drops == 0 {
+                        t.runnable = true;
+                        self.facts.task_wakes += 1;
+                    }
+                }
+                None
+            }
+            ROp::DropScheduler { .. } => None,
             ROp::Adapt { fd, live_before, regular_file, nonblocking_before, .. } => {
                 let Some((a, nb_after)) = self.pending_adapt.take() else { return None };
                 if !self.known_fds.contains(&fd) {
@@ -1208,7 +1266,25 @@ impl Monitor {
                     }
                 }
             }
-            Payload::Out { .. } => {}
+            Payload::Out { task, val } => {
+                let Some(t) = self.tasks.get_mut(*task) else {
+                    return viol("C10.result", &["C10", "C01"], format!("executor #{s} delivered a value for unknown task {task}"));
+                };
+                if t.src != s {
+                    return viol("C10.result", &["C10", "C01"], format!("executor #{s} delivered the value of task {task}, which belongs to executor #{}", t.src));
+                }
+                if !t.finished || t.delivered > 0 {
+                    return viol(
+                        "C10.result",
+                        &["C10", "C01"],
+                        format!("executor #{s} delivered the value of task {task} (finished: {}, delivered before: {})", t.finished, t.delivered),
+                    );
+                }
+                if *val != t.val {
+                    return viol("C10.result", &["C10"], format!("executor #{s} delivered value {val} for task {task}, scheduled with {}", t.val));
+                }
+                t.delivered += 1;
+            }
             Payload::Child { child, inner } => {
                 let renum = self.srcs[s].renumbered_in_disp;
                 return self.check_child_cause(s, *child, inner, t_ns).map(|(v, p)| if renum { (v.with_sig(SIG_F12), p) } else { (v, p) });
@@ -1489,6 +1565,10 @@ impl Monitor {
                 self.disp_actors = 0;
                 self.facts.dispatches += 1;
                 self.compute_owed(*t_ns);
+                for t in self.tasks.iter_mut() {
+                    let m = &self.srcs[t.src];
+                    t.owed = t.accepted && t.runnable && !t.finished && t.drops == 0 && m.st == St::Inserted && m.enabled && m.taint.is_none();
+                }
                 for m in self.asyncs.iter_mut() {
                     m.touched = false;
                     m.woken_in_disp = false;
@@ -1919,6 +1999,22 @@ impl Monitor {
                                 }
                             }
                         }
+                        for (i, t) in self.tasks.iter().enumerate() {
+                            let m = &self.srcs[t.src];
+                            if m.taint.is_some() || m.touched {
+                                continue;
+                            }
+                            if t.owed && m.st == St::Inserted && m.enabled {
+                                return viol(
+                                    "C10.wake",
+                                    &["C10", "C02"],
+                                    format!("task {i} of executor #{} was runnable (scheduled or woken) when the dispatch started and was not polled by this Ok dispatch ({} polls so far)", t.src, t.polls),
+                                );
+                            }
+                            if t.finished && t.delivered == 0 && t.drops <= 1 && m.st == St::Inserted && m.enabled {
+                                return viol("C10.result", &["C10", "C02"], format!("task {i} of executor #{} completed but its value was not delivered by the end of the dispatch", t.src));
+                            }
+                        }
                         for (i, m) in self.asyncs.iter().enumerate() {
                             if m.owed && !m.touched && !m.woken_in_disp && m.live {
                                 return Some((
@@ -2060,6 +2156,15 @@ impl Monitor {
                 if !*pending_continue {
                     return viol("C09.leak", &["C09"], "a deferred post-action is still pending while no event processing is on the stack".to_string());
                 }
+                for (i, t) in self.tasks.iter().enumerate() {
+                    if t.accepted && t.drops == 0 && self.srcs[t.src].src_drops > 0 {
+                        return viol(
+                            "C10.drop",
+                            &["C10", "C06"],
+                            format!("executor #{} has been dropped but the future of its task {i} has not (finished: {})", t.src, t.finished),
+                        );
+                    }
+                }
                 if self.any_taint() {
                     return None;
                 }
@@ -2193,7 +2298,66 @@ impl Monitor {
                 }
                 None
             }
-            Ev::Poll { .. } | Ev::PollEnd { .. } | Ev::FutDrop { .. } => None,
+            Ev::Poll { task, thread_ok } => {
+                let Some(t) = self.tasks.get_mut(*task) else { return None };
+                let s = t.src;
+                if !*thread_ok {
+                    return viol("C10.thread", &["C10"], format!("task {task} polled off the loop thread"));
+                }
+                t.polls += 1;
+                t.in_poll = true;
+                let (finished, dropped) = (t.finished, t.drops);
+                t.runnable = false;
+                t.owed = false;
+                let m = &self.srcs[s];
+                if m.taint.is_some() {
+                    return None;
+                }
+                if finished || dropped > 0 {
+                    return viol("C10.result", &["C10"], format!("task {task} polled after it had completed / been dropped"));
+                }
+                if self.cur_proc != Some(s) {
+                    return viol("C01.live", &["C01", "C10"], format!("task {task} of executor #{s} polled while {:?} is being processed", self.cur_proc));
+                }
+                let lat = m.latitude && self.cur_proc == Some(s);
+                if m.st != St::Inserted && !lat {
+                    return viol("C06.after_remove", &["C06", "C10", "C01"], format!("task {task} polled although its executor #{s} is {:?}", m.st));
+                }
+                if !m.enabled && !lat {
+                    return viol("C07.silent", &["C07", "C10", "C01"], format!("task {task} polled while its executor #{s} is disabled"));
+                }
+                self.facts.task_polls += 1;
+                None
+            }
+            Ev::PollEnd { task, ready } => {
+                let Some(t) = self.tasks.get_mut(*task) else { return None };
+                t.in_poll = false;
+                let expect_ready = t.remaining == 0;
+                if !expect_ready {
+                    t.remaining -= 1;
+                    if t.self_wake {
+                        t.runnable = true;
+                    }
+                }
+                if *ready {
+                    t.finished = true;
+                }
+                debug_assert_eq!(*ready, expect_ready, "scripted future out of step with the model");
+                None
+            }
+            Ev::FutDrop { task, thread_ok } => {
+                let Some(t) = self.tasks.get_mut(*task) else { return None };
+                t.drops += 1;
+                t.runnable = false;
+                t.owed = false;
+                if !*thread_ok {
+                    return viol("C10.thread", &["C10"], format!("future of task {task} dropped off the loop thread"));
+                }
+                if t.drops > 1 {
+                    return viol("C10.drop", &["C10", "C06"], format!("future of task {task} dropped {} times", t.drops));
+                }
+                None
+            }
         }
     }
 
@@ -2240,7 +2404,7 @@ impl Monitor {
         for m in self.srcs.iter() {
             if m.st == St::Inserted && m.enabled {
                 match &m.kind {
-                    Kind::Ping | Kind::Chan { .. } | Kind::Gen { .. } => want_keys.push(m.key),
+                    Kind::Ping | Kind::Chan { .. } | Kind::Gen { .. } | Kind::Exec => want_keys.push(m.key),
                     Kind::Probe { .. } => {
                         for i in 0..m.sub_pings.len() as u64 {
                             want_keys.push(m.key + i);
